@@ -480,6 +480,17 @@ let run_sem (label : string) (pw : int) (nvals : int) (seed : int) (fn : func) (
        (match fn.f_result with
         | Some t -> one t (fun v -> check_post_return pwn t v evs)
         | None -> ())
+   | ["call"; v; ll; a; _] ->
+       let t = TTuple fn.f_params in
+       let chk (v0 : val0) : verdict =
+         let args = (match v0 with VRec l -> l | _ -> []) in
+         let result = (match fn.f_result with Some rt -> Some (rand_val rt) | None -> None) in
+         match v, ll, a with
+         | "GuestImport", "LowerLift", "0" -> check_call_import pwn fn args result evs
+         | "GuestExport", "LiftLower", "0" -> check_call_export pwn fn args result false evs
+         | ("GuestExport" | "GuestExportAsync"), "LiftLower", "1" -> check_call_export pwn fn args result true evs
+         | _ -> Skip in
+       one t chk
    | _ -> failwith ("sem label " ^ label));
   match !fail with
   | Some m -> "FAIL " ^ m
